@@ -506,32 +506,28 @@ func (e *Engine) emitOne(p *partition, c *run, survivors *[]*run) []map[string]a
 	return out
 }
 
-// emitLazy 处理懒惰模式的完成匹配：立即按 startSeq 升序、同 startSeq 选最短 emit。
+// emitLazy 处理懒惰模式的完成匹配：按 startSeq 升序、同 startSeq 选最短 emit。
+// Like greedy mode, starts are emitted leftmost-first: the shortest completion of a start waits
+// in pending while a run with an earlier start is still alive. Runs of the same start do not
+// block it (a longer match of that start is never preferred).
 func (e *Engine) emitLazy(p *partition, completions []*run, survivors *[]*run) []map[string]any {
-	if len(completions) == 0 {
-		return nil
-	}
-	sort.SliceStable(completions, func(i, j int) bool {
-		if completions[i].startSeq != completions[j].startSeq {
-			return completions[i].startSeq < completions[j].startSeq
-		}
-		return completions[i].nrows < completions[j].nrows // 懒惰：同 startSeq 选最短
-	})
-	var emitted []map[string]any
 	for _, c := range completions {
 		if c.startSeq < p.nextStart {
 			continue
 		}
-		emitted = append(emitted, e.emitOne(p, c, survivors)...)
+		if cur := p.pending[c.startSeq]; len(cur) == 0 || c.nrows < cur[0].nrows {
+			p.pending[c.startSeq] = []*run{c} // 懒惰：同 startSeq 选最短
+		}
 	}
-	return emitted
+	return e.emitGreedy(p, survivors)
 }
 
 // emitGreedy 处理贪婪模式的完成匹配：pending 已按 startSeq 暂存（只留最长），emit 延伸
 // 终止的 startSeq。survivors 为空时 emit 全部（供 Flush）。
 // Starts are emitted leftmost-first: a pending start is held back while a run with an earlier
 // or equal start is still alive, because that run may still produce the match that takes
-// precedence (and whose SKIP would discard this start).
+// precedence (and whose SKIP would discard this start). emitLazy shares this loop; there a run
+// of the same start does not block.
 func (e *Engine) emitGreedy(p *partition, survivors *[]*run) []map[string]any {
 	var emitted []map[string]any
 	for len(p.pending) > 0 { // 默认贪婪模式每事件调用：无在途匹配时短路
@@ -540,7 +536,7 @@ func (e *Engine) emitGreedy(p *partition, survivors *[]*run) []map[string]any {
 		limit := earliestStart(*survivors)
 		var ready []int64
 		for s := range p.pending {
-			if s >= p.nextStart && s < limit {
+			if s >= p.nextStart && (s < limit || e.lazy && s == limit) {
 				ready = append(ready, s)
 			}
 		}
